@@ -67,7 +67,9 @@ func c11Catalogue() []c11Attack {
 		{ID: "fac/256-bit-factor", Proto: kg(), B: 1, Round: 3, Kind: "input", Guard: "z1,z2 range of the factorisation proof"},
 		// Paillier key proof guards (mod/fac proofs switched off on both sides so that only this proof can see it)
 		{ID: "paillier-key/divisible-by-7", Proto: kgNoProofs(), B: 0, Round: 4, Kind: "input", Guard: "small-prime trial division"},
-		{ID: "paillier-key/shares-factor-with-phi", Proto: kgNoProofs(), B: 1, Round: 4, Kind: "input", Guard: "N-th root check"},
+		// (no valid proof exists for such a modulus and the library's prover panics on it: announced
+		// next to B's proof for its real modulus)
+		{ID: "paillier-key/shares-factor-with-phi", Proto: kgNoProofs(), B: 1, Round: 4, Kind: "announce", Guard: "N-th root check"},
 		// Paillier-Blum modulus proof, announced modulus (honest proof for a neighbouring true modulus)
 		{ID: "mod/announce-prime", Proto: kg(), B: 0, Round: 3, Kind: "announce", Guard: "N composite"},
 		{ID: "mod/announce-even", Proto: kg(), B: 0, Round: 3, Kind: "announce", Guard: "N odd"},
@@ -337,6 +339,24 @@ func driveC11(rc *RunCtx) {
 				n := new(big.Int).Mul(new(big.Int).Mul(primeWith(r, 683, 3), primeWith(r, 683, 3)), primeWith(r, 682, 3))
 				if n.BitLen() == 2048 {
 					return n
+				}
+			}
+		case "paillier-key/shares-factor-with-phi":
+			// p | q-1: gcd(N, phi(N)) > 1
+			for {
+				P := primeWith(r, 900, 3)
+				for tries := 0; tries < 3000; tries++ {
+					kb := make([]byte, 31)
+					for i := range kb {
+						kb[i] = byte(r.UintN(256))
+					}
+					k := new(big.Int).SetBytes(kb)
+					k.SetBit(k, 247, 1)
+					k.SetBit(k, 0, 0)
+					c := new(big.Int).Add(new(big.Int).Mul(k, P), big.NewInt(1))
+					if c.ProbablyPrime(12) && new(big.Int).Mul(P, c).BitLen() == 2048 {
+						return new(big.Int).Mul(P, c)
+					}
 				}
 			}
 		case "mod/announce-p-1-mod-4":
